@@ -235,6 +235,12 @@ class MethodView:
                 coll = P.norm(inner[4][0])
                 out.append((g, coll, self._predicate(inner[4][1], coll, inner[1])))
                 continue
+            if fw == "some" and nm.endswith("::filter") and "option" in nm.lower() and len(inner[4]) == 2 and isinstance(inner[4][1], tuple) and inner[4][1][0] == "closure":
+                # `if let Some(v) = opt.filter(|&v| p(v)) { fail }`: fails iff the option holds a value satisfying p; the "collection" is the
+                # option, its payload stands for the element
+                opt = P.norm(inner[4][0])
+                out.append((g, opt, P.norm(self.fr.closure_ret(inner[4][1], [opt], site_hint=inner[1]))))
+                continue
             if fw is True and nm.endswith("::any") and len(inner[4]) == 2 and isinstance(inner[4][1], tuple) and inner[4][1][0] == "closure":
                 coll = P.norm(inner[4][0])
                 out.append((g, coll, self._predicate(inner[4][1], coll, inner[1])))
